@@ -55,7 +55,12 @@ class UntypedAtomic(AnyAtomicType):
             case float():
                 self.value = str(value).rstrip('0').rstrip('.')
             case Decimal():
-                self.value = str(value.normalize())
+                # canonical representation of xs:decimal: no exponent, no rounding
+                self.value = format(value, 'f')
+                if '.' in self.value:
+                    self.value = self.value.rstrip('0').rstrip('.')
+                if self.value in ('-0', ''):
+                    self.value = '0'
             case UntypedAtomic():
                 self.value = value.value
             case None:
